@@ -1,5 +1,6 @@
 // C11 - base64url codec: exhaustive enumeration of small inputs + buffer arithmetic under ASan.
 #include "vlib.h"
+#include "vkeys.h"
 using namespace v;
 
 static int SX[256];       // sextet value or -1 (both alphabets)
@@ -100,6 +101,97 @@ static bool nontrivial_enc(const unsigned char *p, size_t n) {
   return false;
 }
 
+// ---- (4) the users of the decoder: every base64url-carrying JWK member of every key type, and every token segment.
+// "Text that contains ... a byte outside the alphabets, or whose length is 1 modulo 4, is rejected rather than partially decoded":
+// a JWK with such a member must come out as an item that reports an error; a token with such a segment must not verify.
+static std::string corrupt_text(const std::string &t, int v) {
+  std::string r = t; size_t mid = r.size() / 2;
+  switch (v) {
+  case 0: r.insert(mid, "!"); break;
+  case 1: r.insert(0, "*"); break;
+  case 2: r += "\xc3\xa9"; break;                                   // two bytes >= 0x80 (valid UTF-8, so the JSON layer lets it through)
+  case 3: do r += 'A'; while (r.size() % 4 != 1); break;             // length 1 modulo 4, alphabet characters only
+  case 4: if (!r.empty()) r[mid] = ' '; else r = " "; break;
+  case 5: r.insert(mid, "."); break;
+  case 6: if (!r.empty()) r[r.size() - 1] = ','; else r = ","; break;
+  case 7: r.insert(mid, "\n"); break;
+  case 8: if (r.size() % 4 == 2) r.resize(r.size() - 1); else if (r.size() % 4 == 3) r.resize(r.size() - 2); else if (r.size() % 4 == 0 && r.size()) r.resize(r.size() - 3); break;   // truncated to length 1 modulo 4
+  }
+  return r;
+}
+static const int NCORR = 9;
+static jwk_set_t *load_via(int how, const std::string &doc, jwk_set_t **owner) {
+  *owner = nullptr;
+  switch (how) {
+  case 0: return *owner = jwks_create(doc.c_str());
+  case 1: return *owner = jwks_create_strn(doc.data(), doc.size());
+  case 2: { FILE *f = fmemopen((void *)doc.data(), doc.size(), "r"); jwk_set_t *r = jwks_create_fromfp(f); fclose(f); return *owner = r; }
+  default: { jwk_set_t *set = jwks_create(NULL); *owner = set; return jwks_load_strn(set, doc.data(), doc.size()); }
+  }
+}
+// "" fine; else the clause
+static std::string check_jwk_doc(int prov, int how, const std::string &doc) {
+  set_provider(prov); jwk_set_t *owner = nullptr; jwk_set_t *set = load_via(how, doc, &owner);
+  std::string r;
+  if (!set) r = "load-returned-null";
+  else { const jwk_item_t *it = jwks_item_get(set, jwks_item_count(set) ? jwks_item_count(set) - 1 : 0);
+    if (!it) { if (!jwks_error(set)) r = "no-item-and-no-error"; }
+    else if (!jwks_item_error(it)) r = "accepted"; }
+  if (owner) jwks_free(owner);
+  return r;
+}
+static std::string check_token_seg(int prov, const KeySpec &k, jwt_alg_t alg, const std::string &tok) {
+  set_provider(prov); set_now(1700000000);
+  JwkOpts o; o.priv = k.kind == K_OCT; LKey lk(jwk_json(k, o)); if (!lk.ok()) return "";
+  jwt_checker_t *ch = jwt_checker_new(); std::string r;
+  if (!jwt_checker_setkey(ch, alg, lk.item) && jwt_checker_verify(ch, tok.c_str()) == 0) r = "accepted";
+  jwt_checker_free(ch); return r;
+}
+static void part_users(Stats &st, const Args &a) {
+  Pool pool = standard_pool();
+  struct KA { const char *key; jwt_alg_t alg; const char *attr; };
+  const KA kas[] = {{"oct64", JWT_ALG_HS256, ""}, {"oct48", JWT_ALG_HS384, "HS384"}, {"rsa_2048", JWT_ALG_RS256, ""}, {"rsa_2048", JWT_ALG_PS384, "PS384"}, {"rsa_3072", JWT_ALG_RS512, "RS512"},
+                    {"ec_p256", JWT_ALG_ES256, ""}, {"ec_p384", JWT_ALG_ES384, "ES384"}, {"ec_p521", JWT_ALG_ES512, ""}, {"ec_k256", JWT_ALG_ES256K, ""}, {"ed25519", JWT_ALG_EDDSA, ""}, {"ed448", JWT_ALG_EDDSA, "EdDSA"}};
+  static const char *MEMB[] = {"k", "n", "e", "d", "p", "q", "dp", "dq", "qi", "x", "y"};
+  uint64_t idx = 0;
+  for (const KA &ka : kas) {
+    const KeySpec &k = pool.get(ka.key);
+    for (int priv = 0; priv < 2; priv++) {
+      if (k.kind == K_OCT && !priv) continue;
+      JwkOpts o; o.priv = priv; o.alg = ka.attr; o.kid = "c11"; J jwk = J::parse(jwk_json(k, o)); if (!jwk) continue;
+      for (const char *mn : MEMB) {
+        json_t *mv = json_object_get(jwk.p, mn); if (!mv || !json_is_string(mv)) continue;
+        std::string orig = json_string_value(mv);
+        // a private OKP JWK is built from d alone ("EdDSA only need one or the other"): its x is never decoded, so it is not text the statement speaks about
+        if (k.kind == K_OKP && priv && !strcmp(mn, "x")) { st.cls("member-the-library-never-decodes(skipped)"); continue; }
+        for (int v = 0; v < NCORR; v++) {
+          std::string bad = corrupt_text(orig, v); if (bad == orig) continue;
+          J doc(json_deep_copy(jwk.p)); json_object_set_new(doc.p, mn, json_stringn(bad.data(), bad.size())); std::string text = doc.dump(JSON_COMPACT);
+          for (int prov = 0; prov < 2; prov++) for (int how = 0; how < 4; how++) {
+            if ((int)(idx++ % a.nworkers) != a.worker) continue;
+            std::string r = check_jwk_doc(prov, how, text); st.evaluations++; st.cls("jwk-member-with-invalid-text"); st.nontrivial(mix(fnv(text), prov * 4 + how));
+            if (!r.empty()) { stats().violation(std::string("C11:jwk-member-with-invalid-text:") + r + ":" + (k.kind == K_OCT ? "oct" : k.kind == K_RSA ? "RSA" : k.kind == K_EC ? "EC" : "OKP") + "." + mn + (priv ? ":private" : ":public"),
+                "a JWK whose member is not valid base64url text is imported without error (variant " + std::to_string(v) + ")", "{\"kind\":\"jwkmember\",\"prov\":" + std::to_string(prov) + ",\"how\":" + std::to_string(how) + ",\"doc\":" + jstr(text) + "}"); return; }
+          }
+        }
+      }
+    }
+    // token segments
+    std::string hdr = std::string("{\"alg\":\"") + jwt_alg_str(ka.alg) + "\",\"typ\":\"JWT\"}";
+    std::string good = ref_token(k, ka.alg, hdr, "{\"sub\":\"c11\",\"n\":12345}"); TokParts tp = split_token(good); if (!tp.ok) continue;
+    for (int seg = 0; seg < 3; seg++) for (int v = 0; v < NCORR; v++) {
+      std::string parts[3] = {tp.h, tp.p, tp.s}; std::string bad = corrupt_text(parts[seg], v); if (bad == parts[seg]) continue; parts[seg] = bad;
+      std::string tok = parts[0] + "." + parts[1] + "." + parts[2];
+      for (int prov = 0; prov < 2; prov++) {
+        if ((int)(idx++ % a.nworkers) != a.worker) continue;
+        std::string r = check_token_seg(prov, k, ka.alg, tok); st.evaluations++; st.cls("token-segment-with-invalid-text"); st.nontrivial(mix(fnv(tok), prov));
+        if (!r.empty()) { stats().violation(std::string("C11:token-segment-with-invalid-text-accepted:segment") + std::to_string(seg), "a token one of whose segments is not valid base64url text verifies (variant " + std::to_string(v) + ")",
+            "{\"kind\":\"tokseg\",\"prov\":" + std::to_string(prov) + ",\"key\":\"" + ka.key + "\",\"alg\":\"" + jwt_alg_str(ka.alg) + "\",\"token\":" + jstr(tok) + "}"); return; }
+      }
+    }
+  }
+}
+
 int main(int argc, char **argv) {
   Args a = parse_args(argc, argv);
   for (int c = 0; c < 256; c++) { SX[c] = sextet((unsigned char)c, true); SXU[c] = sextet((unsigned char)c, false); }
@@ -110,6 +202,8 @@ int main(int argc, char **argv) {
     J j = J::parse(read_file(a.replay));
     const char *kind = json_string_value(json_object_get(j.p, "kind"));
     const char *hx = json_string_value(json_object_get(j.p, "hex"));
+    if (kind && !strcmp(kind, "jwkmember")) return check_jwk_doc((int)json_integer_value(json_object_get(j.p, "prov")), (int)json_integer_value(json_object_get(j.p, "how")), json_string_value(json_object_get(j.p, "doc"))).empty() ? 0 : 3;
+    if (kind && !strcmp(kind, "tokseg")) { Pool pool = standard_pool(); return check_token_seg((int)json_integer_value(json_object_get(j.p, "prov")), pool.get(json_string_value(json_object_get(j.p, "key"))), jwt_str_alg(json_string_value(json_object_get(j.p, "alg"))), from_latin1_utf8(json_string_value(json_object_get(j.p, "token")))).empty() ? 0 : 3; }
     if (!kind || !hx) return 2;
     std::string b = unhex(hx); b.push_back('\0');
     bool ok = true;
@@ -201,5 +295,6 @@ int main(int argc, char **argv) {
     }
     st.evaluations += n; st.cls("buffers", n);
   }
+  if (st.violations.empty()) part_users(st, a);
   return finish();
 }
